@@ -15,9 +15,15 @@ into a Lean 4 definition over the run-time library `lean/VelaVerif/Model/PyRt.le
 Every arithmetic operator is a call of the run-time library (which implements Python's floor
 division, sign-of-divisor modulo, arithmetic shift, unbounded ints and NumPy's wrap-around / NEP 50
 promotion), so the translator itself only deals with *structure*: evaluation order, short-circuit
-operators, SSA renaming of locals, `if` joins, early `return`, `assert`, `for` loops with
-accumulators, calls of other translated functions, nested functions (lambda-lifted), list
-parameters that are mutated (`.append` / `.extend`: the new list is returned).
+operators, SSA renaming of locals, `if` joins (state update or continuation in the branches), early
+`return`, `assert`, `raise`, `for` loops with accumulators (`pyFor`) and with `continue` / `break` /
+`return` (`pyForE`), simple list comprehensions, calls of other translated functions (also across
+modules), methods (`Class.method`, `self` a record), nested functions (lambda-lifted), list parameters
+that are mutated (`.append` / `.extend`: the new list is returned), named tuples declared by the plug-in
+(field order read from the source), `None`-or-value results and locals (`Option`), and the plug-in
+declared abstractions: record parameters (every attribute path read becomes a parameter; list / tuple /
+boolean attributes), opaque calls / targets / records (results of float code become parameters),
+identity wrappers (`Shape4D(list)`).
 
 Anything outside the subset raises `Untranslatable` naming the construct and its line.  The plug-ins
 `harness/tables/src_*.py` then emit a marker for that function instead of a definition, so that the
@@ -364,6 +370,39 @@ class Module:
         return "\n".join(out) + "\n", status
 
 
+_NT_CACHE = {}
+
+
+def named_tuple_fields(repo, name, spec):
+    """field names of a named tuple, read from the source: `spec` is the file (relative to the repo) that
+    defines `class name(NamedTuple)` (annotated fields in order) or `name = namedtuple("name", "a b c")`"""
+    if isinstance(spec, (list, tuple)) and not (len(spec) == 1 and spec[0].endswith(".py")):
+        return list(spec)
+    rel = spec if isinstance(spec, str) else spec[0]
+    key = (repo, rel, name)
+    if key in _NT_CACHE:
+        return _NT_CACHE[key]
+    with open(os.path.join(repo, rel), encoding="utf-8") as f:
+        tree = ast.parse(f.read())
+    fields = None
+    for node in tree.body:
+        if isinstance(node, ast.ClassDef) and node.name == name and any(ast.unparse(b).endswith("NamedTuple") for b in node.bases):
+            fields = [st.target.id for st in node.body if isinstance(st, ast.AnnAssign) and isinstance(st.target, ast.Name)]
+        if isinstance(node, ast.Assign) and len(node.targets) == 1 and isinstance(node.targets[0], ast.Name) \
+                and node.targets[0].id == name and isinstance(node.value, ast.Call) \
+                and ast.unparse(node.value.func).endswith("namedtuple") and len(node.value.args) == 2 \
+                and all(isinstance(a, ast.Constant) for a in node.value.args[:1]):
+            a1 = node.value.args[1]
+            if isinstance(a1, ast.Constant) and isinstance(a1.value, str):
+                fields = a1.value.replace(",", " ").split()
+            elif isinstance(a1, (ast.List, ast.Tuple)) and all(isinstance(e, ast.Constant) for e in a1.elts):
+                fields = [e.value for e in a1.elts]
+    if not fields:
+        raise Untranslatable(f"named tuple `{name}` not found in {rel}")
+    _NT_CACHE[key] = fields
+    return fields
+
+
 def fold_binop(op, a, b):
     try:
         if isinstance(op, ast.Add):
@@ -436,8 +475,8 @@ class FnTranslator:
         self.record_lists = {}        # dotted path -> lean name (List Num parameters, declared in the configuration)
         self.opaque = dict(self.cfg.get("opaque", {}))
         self.opaque_targets = dict(self.cfg.get("opaque_targets", {}))
-        for nm, fields in module.config.get("__tuples__", {}).items():
-            NT_FIELDS[nm] = list(fields)
+        for nm, spec in module.config.get("__tuples__", {}).items():
+            NT_FIELDS[nm] = named_tuple_fields(module.repo, nm, spec)
         self.optional_ret = False
         self.loop_stack = []          # innermost last: {"next": env -> term, "brk": env -> term}
         self.opaque_params = []       # (lean name, shape, description)
